@@ -2,7 +2,7 @@
 From Coq Require Import ZArith List Bool String.
 From CP Require Import Lemmas.IntLemmas.
 From CPGen Require Import Tables.
-Open Scope string_scope.
+Local Open Scope string_scope.
 
 Definition flag_tables_ok : bool :=
   forallb (fun t => String.eqb (fst t) "RDPProtocol" || forallb single_bitb (snd t)) flag_tables.
